@@ -7,6 +7,22 @@ VERIF = Path(__file__).resolve().parent.parent
 
 # id -> (implemented, category, technique, level text, level note, design ref)
 P = {
+    'C19': (True, 'exploration',
+            'helper value vs real-chain value vs value recomputed from the supplied inputs; invocation log and file monitor for mocked tasks',
+            'For tasks of generated pipelines the helpers (create_test_task / TestChain) get the task class, mock values keyed by class or name (real upstream values, or '
+            'arbitrary ones incl. None, falsy, nested, callables, classes) and parameter values (by name_in_config, defaults omitted or spelled, parameter objects as instances '
+            'or definitions, ChainObject parameter objects); the helper\'s value digest must equal the real chain\'s and the digest recomputed from the supplied values; only the '
+            'tested task may run (once); no file outside its directory; a missing required input mock or parameter must fail at helper construction.',
+            'Fresh base dir per helper; no global_vars (helpers have no such argument).',
+            'DESIGN.md §3 C19'),
+    'C20': (True, 'exploration',
+            'multi-process migration histories: name-mode chain, dry/real/repeated migration, parameter-mode chain on the target with the source moved away; run log, has_data, value and tree-hash monitors',
+            'Generated file-based pipelines (uses/namespaces, multi-config files with and without explicit part, contexts, global_vars incl. placeholder `uses` paths, dotted config names, '
+            'all file/directory data classes incl. empty results) computed in name mode for random subsets; dry migration writes nothing; after migration has_data(parameter mode on target) == '
+            'has_data(name mode) per computation, migrated values load without any run and equal the reference, the rest computes normally; source tree hashes unchanged; second migration is a no-op; '
+            'the target still works after the source directory is moved away.',
+            'No root namespace (the function takes none); one config file is not mounted twice in name mode.',
+            'DESIGN.md §3 C20'),
     'C02': (True, 'exploration',
             'metamorphic monitor: locations of corresponding tasks in a configuration and in a computation-preserving rewriting of it (validated on the reference model), across interpreters',
             'Pairs (S, S\') where S\' is S after 1-4 composed rewritings (rename/move/format of config files, mounting under namespace paths by root namespace or wrapper, '
